@@ -103,7 +103,11 @@ theorem C11Lib2_foreign_key_check_clean (s : Schema2) (L : Lib2) (h : LibInv s L
     have := (plAny_iff L e.key).mpr h1
     simp [this]
   · intro r hr
-    rw [h.prep] at hr; cases hr
+    cases ht : r.track with
+    | none => rfl
+    | some t =>
+      have := (find_isSome_iff L.tdb t).mpr (h.prep r hr t ht)
+      simp [Lib2.trackLive, this]
 
 /-- … in particular after every history of public calls, failed calls included. -/
 theorem C11Lib2_reachable_foreign_key_check_clean (ops : FOps) (s : Schema2) (uuid : Bytes) (hist : List Call)
@@ -125,6 +129,19 @@ theorem C11Lib2_unscoped_counterexample :
       tdb := ⟨[85], 1, []⟩, pl := [⟨1, 0, 0, [97]⟩], plSeq := 1, pe := [⟨1, 1, 0, ⟨1, 0⟩⟩], peSeq := 1 }
     libInv .s2_18_0 L = false := by
   decide
+
+/-- The prepare list matters (this package's `fix:` 39a8ec7): Engine puts a track on its prepare list
+(`plantPrepare`, not a call of the library), the library removes the track — `remove_track` deletes the
+PreparelistEntity row with it (the model after the fix: `fkCheck = []`, the row is gone); had it not (the code
+before the fix: the state below with the row left in place), `PRAGMA foreign_key_check` reports the row. -/
+theorem C11Lib2_prepare_list_counterexample :
+    let ops : FOps := ⟨fun _ => 0, fun _ => 0, fun _ _ => 0⟩
+    let x : Snap := { Snap.empty with relativePath := some [97, 46, 98] }
+    let L := run ops .s2_21_2 (Lib2.empty .s2_21_2 [85]) [.createTrack x, .plantPrepare 1]
+    let L' := (step ops .s2_21_2 L (.removeTrack 1)).1
+    L.prep = [⟨1, some 1⟩] ∧ L'.prep = [] ∧ fkCheck L' = [] ∧
+    fkCheck { L' with prep := L.prep } = [⟨"PreparelistEntity", 1, "Track"⟩] := by
+  decide +kernel
 
 /-! ### non-vacuity: an interleaved history with refused calls, on a schema with the ChangeLog table -/
 
